@@ -51,6 +51,8 @@ def _jsonable(x):
 
 def write_replay(prop, n, v):
     d = os.path.join(HERE, 'replays', prop)
+    if os.environ.get('VERIF_SCRATCH'):
+        d = os.path.join('/tmp/seedrun', 'replays-' + os.environ['VERIF_SCRATCH'], prop)
     os.makedirs(d, exist_ok=True)
     p = os.path.join(d, '%d.json' % n)
     doc = {
@@ -168,7 +170,8 @@ def run_check(prop, tier):
         print('KNOWN-FINDING: property=%s %s [%s] (%d cases)' % (prop, f['what'], fid, n))
     # replays: one per distinct signature, at most 25
     import shutil
-    shutil.rmtree(os.path.join(HERE, 'replays', prop), ignore_errors=True)
+    if not os.environ.get('VERIF_SCRATCH'):
+        shutil.rmtree(os.path.join(HERE, 'replays', prop), ignore_errors=True)
     seen_sig = set()
     nrep = 0
     for v in fresh:
@@ -246,6 +249,8 @@ def write_evidence(prop, tier, mod, total, samples, per_group, nviol, known, wal
         'violations': nviol,
     }
     d = os.path.join(HERE, 'evidence')
+    if os.environ.get('VERIF_SCRATCH'):     # development run against a scratch copy: not evidence
+        d = os.path.join('/tmp/seedrun', 'evidence-' + os.environ['VERIF_SCRATCH'])
     os.makedirs(d, exist_ok=True)
     with open(os.path.join(d, prop + '.json'), 'w') as f:
         json.dump(ev, f, indent=1, sort_keys=True)
